@@ -70,6 +70,25 @@ def check(run):
         for op in ("witness", "calcwit"):
             seqs.append([wline(op, sv, 100, 3, path0, idx0, rand_fr(rng), ev)])
             seqs.append([wline(op, sv, 100, 4, path0, idx0, rand_fr(rng), ev)])      # another message id: a1 must still depend on it
+    # the sibling at level j EQUALS the running node (two identical subtrees side by side: the same member registered twice) or is
+    # its successor / predecessor: a coincidence between a witness value and an intermediate value of the fold
+    spec_w = []
+    for j in ([0, 1, 19] if quick else [0, 1, 2, 5, 10, 18, 19]):
+        for d in (0, 1, P - 1):
+            for bit in (0, 1):
+                idx = [rng.getrandbits(1) for _ in range(20)]; idx[j] = bit
+                spec_w.append(dict(s=rand_fr(rng), lim=100, mid=3, path=[rand_fr(rng) for _ in range(20)], idx=idx, x=rand_fr(rng), e=rand_fr(rng), j=j, d=d))
+    hs = rlngen.poseidon(zkh, [[w_["s"]] for w_ in spec_w])
+    hs = rlngen.poseidon(zkh, [[h, w_["lim"]] for h, w_ in zip(hs, spec_w)])
+    for lvl in range(20):
+        for h, w_ in zip(hs, spec_w):
+            if w_["j"] == lvl:
+                w_["path"][lvl] = (h + w_["d"]) % P
+        hs = rlngen.poseidon(zkh, [([h, w_["path"][lvl]] if w_["idx"][lvl] == 0 else [w_["path"][lvl], h]) for h, w_ in zip(hs, spec_w)])
+    for w_ in spec_w:
+        seqs.append([wline("witness", w_["s"], w_["lim"], w_["mid"], w_["path"], w_["idx"], w_["x"], w_["e"])])
+        if w_["d"] == 0:
+            seqs.append([wline("calcwit", w_["s"], w_["lim"], w_["mid"], w_["path"], w_["idx"], w_["x"], w_["e"])])
     # all 2^k direction patterns on a short prefix (the remaining levels fixed)
     base = [rand_fr(rng) for _ in range(20)]
     for pat in range(0, 1 << (5 if quick else 10)):
@@ -96,5 +115,5 @@ def check(run):
                                      (m.secret, m.index, m.limit, [f"rln delete {hex(m.index)}"])]:                     # leaf deleted
             rq = rlngen.prove_request(sec, idx_, lim, min(M["mid"], lim - 1), M["ext"], M["signal"])
             seqs.append(M["setup"] + pre + [f"rln prove_req {hx(rq)}"])
-    run.rules.append("witnesses with boundary / random field values in every position, all-zero / all-one / one-hot / random direction patterns, all 2^k patterns on a prefix, values equal to negated first-round Poseidon constants in the sibling / secret / external-nullifier positions (a zero state lane inside the native hash), consecutive lines that share all but one field (same identity and epoch, other message id / epoch / identity / limit), through proof_values_from_witness (formulas vs the ideal path fold), calculate_rln_witness()[0..6] and bytes 128..288 of generate_rln_proof (registered members and requests that do not match the stored leaf: other limit, other secret, neighbouring position, replaced / deleted leaf); distinct = distinct witness")
+    run.rules.append("witnesses with boundary / random field values in every position, all-zero / all-one / one-hot / random direction patterns, all 2^k patterns on a prefix, a sibling equal to (or one off) the running node of the fold at several levels, values equal to negated first-round Poseidon constants in the sibling / secret / external-nullifier positions (a zero state lane inside the native hash), consecutive lines that share all but one field (same identity and epoch, other message id / epoch / identity / limit), through proof_values_from_witness (formulas vs the ideal path fold), calculate_rln_witness()[0..6] and bytes 128..288 of generate_rln_proof (registered members and requests that do not match the stored leaf: other limit, other secret, neighbouring position, replaced / deleted leaf); distinct = distinct witness")
     run.differential("proof-values", seqs, canon=canon, shrink=False)
